@@ -209,3 +209,54 @@ func H_C03_header() {
 	vfNote(out)
 	vfAssert(out == w1+"x"+t2, "only whitespace-only text next to the import clause is dropped")
 }
+
+// c03WS is a run of 0..max white-space characters, each one of blank, tab, CR, LF.
+func c03WS(name string, max int) string {
+	n := ndChoice(name+".len", max+1)
+	s := ""
+	for i := 0; i < n; i++ {
+		s += []string{" ", "\t", "\n", "\r"}[ndChoice(name+"."+string(rune('0'+i)), 4)]
+	}
+	return s
+}
+
+// H_C03_innerSpace: the white space inside an action - between the left delimiter (or its
+// trim marker) and the expression, and between the expression and the right delimiter (or
+// its trim marker) - is any run of blanks, tabs and line breaks (0..2 characters per side,
+// 0..3 in the thorough tier): it never shows in the output and does not change which of
+// the surrounding text is trimmed. Default and "[[ ]]" delimiters; a second, plain action
+// follows so that a marker mis-read in the first one is seen in the second.
+//
+//gosym:reach rendered
+func H_C03_innerSpace() {
+	max := 2
+	if vfTier() == 1 {
+		max = 3
+	}
+	cfg := []int{0, 1}[ndChoice("cfg", 2)]
+	lt, rt := ndBool("ltrim"), ndBool("rtrim")
+	ws1, ws2 := c03WS("ws1", max), c03WS("ws2", max)
+	l, r := c02Left[cfg], c02Right[cfg]
+	t1, t2, t3 := "a \n", " \tb ", "\nc"
+	w1, w2 := t1, t2
+	a := l
+	if lt {
+		a += "- " // the marker is the dash and one blank
+		w1 = c03TrimRight(t1)
+	}
+	a += ws1 + `"x"` + ws2
+	if rt {
+		a += " -"
+		w2 = c03TrimLeft(t2)
+	}
+	a += r
+	out, err := c03Render(c02Set(cfg), t1+a+t2+l+`"y"`+r+t3)
+	vfReach("rendered")
+	vfNote(a)
+	vfAssert(err == nil, "template parses and renders")
+	if err != nil {
+		return
+	}
+	vfNote(out)
+	vfAssert(out == w1+"x"+w2+"y"+t3, "white space inside an action neither shows nor changes what is trimmed")
+}
